@@ -9,6 +9,7 @@ import functools
 from typing import Dict, List, Tuple
 
 from vf.specs import (
+    subprim,
     P,
     disc,
     ANY,
@@ -61,6 +62,8 @@ LEAVES: Dict[str, Sp] = {
     "str_pat": ann(STR, pattern="^a"),
     "nt": newtype("Nt", INT, min=3),
     "nt_s": newtype("Ns", STR),
+    "sub_i": subprim("MyInt", INT),
+    "sub_s": subprim("MyStr", STR),
 }
 HASHABLE = {"int", "float", "str", "bool", "lit_i", "lit_s", "enum", "int_rng", "str_len", "nt"}
 
@@ -366,7 +369,10 @@ TU = ann(
 TU_SRC = "from apischema.tagged_unions import TaggedUnion, Tagged"
 DF = obj("DF", F("inner", INNER, flatten=True), F("w", INT, default=V("0")))
 DP = obj("DP", F("k", STR, default=V("''")), F("p", mp(INT), default=Fy("dict"), properties="^p"))
+TA = obj("TA", F("kind", lit("ta")), F("x", INT), kind="typeddict")
+TB = obj("TB", F("kind", lit("tb")), F("y", STR), kind="typeddict")
 UNION_EXTRA: Dict[str, Tuple[Sp, str]] = {
+    "disc(typeddict)": (disc("kind", (("ta", "TA"), ("tb", "TB")), TA, TB), ""),
     "disc(flatten)": (disc("type", (("DF", "DF"), ("DA", "DA")), DF, DA), ""),
     "disc(props)": (disc("type", (("DP", "DP"), ("DA", "DA")), DP, DA), ""),
     "u(S2,FL)": (union(S2, FL), ""),
@@ -397,7 +403,7 @@ UNION_EXTRA: Dict[str, Tuple[Sp, str]] = {
     "tagged": (TU, TU_SRC),
 }
 
-QUICK_WRAP = ["int", "float", "str_len", "lit_mix", "enum", "nt", "any"]
+QUICK_WRAP = ["int", "float", "str_len", "lit_mix", "enum", "nt", "any", "sub_i"]
 
 
 @functools.lru_cache()
